@@ -17,10 +17,10 @@ func init() { core.Register(prop{}) }
 func (prop) ID() string { return "C17" }
 func (prop) Rule() string {
 	return "node-lite histories with netstore + retrieval over a second real node: 1-3 initial uploads / cached files, then 6-18 ops: uploads, pyramid exchange and PARTIAL fetches of files and directory entries, " +
-		"local reads of manifest / intermediate / data chunks under a file context (`get`, and the reads pin traversals make), discovery answers from the peer (`ask`), chunkinfo restarts from the state store (`reinit`), deletions and collection runs. " +
+		"local reads of manifest / intermediate / data chunks under a file context (`get`, and the reads pin traversals make), discovery answers from the peer (`ask`), chunks of the file served TO the peer (`serve`: the peer's retrieval request answered by the node's real handler, which records the transfer in the availability record it keeps for the peer), chunkinfo restarts from the state store (`reinit`), deletions and collection runs. " +
 		"Fixed regression histories first. After every op status + symbolic dump (availability / discovery / source tables with their bit vectors, state-store keys) are compared with the Lean model; " +
 		"the oracle checks after every op: every set self-presence bit i has data chunk i stored (positions = distinct data chunks in traversal order, addresses computed from the content), an all-set vector has all data chunks stored, " +
-		"and after delete / eviction / restart no table entry and no state-store key of the file remains. Non-trivial: >=1 partially fetched file and >=1 chunk read under a file context or delete; distinct by op-list hash."
+		"after delete / eviction / restart no table entry and no state-store key mentioning the root (any prefix, any overlay) remains, and for a file that was removed once an availability record for the peer exists (memory or state store) only for what was transferred to it since — also after re-upload / re-caching and restart. Non-trivial: >=1 partially fetched file and >=1 chunk read under a file context or delete; distinct by op-list hash."
 }
 
 var fixed = []core.Case{
@@ -31,6 +31,11 @@ var fixed = []core.Case{
 	{ID: "fix-delete-clears", NT: true, Ops: []string{"pup x/AB 0", "pyr x/AB", "fetch x/AB 0 10", "ask x/AB", "del x/AB", "reinit"}},
 	{ID: "fix-evict-clears", NT: true, Ops: []string{"pup x/AB 0", "pyr x/AB", "fetch x/AB 0 11", "ask x/AB", "gc 0", "reinit"}},
 	{ID: "fix-upload-full", NT: true, Ops: []string{"up y/ABA 0", "reinit", "get y/ABA d0", "del y/ABA", "reinit"}},
+	// the file was served to the peer before it is removed: the record kept for the peer (chunk-<root>-<peer>) must go as well and
+	// must not come back when the same root exists again and chunkinfo restarts from the state store
+	{ID: "fix-serve-delete-reupload-restart", NT: true, Ops: []string{"up x/AB 0", "serve x/AB d0", "serve x/AB d1", "del x/AB", "reinit", "up x/AB 0", "reinit", "serve x/AB d1", "reinit"}},
+	{ID: "fix-serve-evict-recache-restart", NT: true, Ops: []string{"pup x/AB 0", "pyr x/AB", "fetch x/AB 0 11", "serve x/AB d0", "serve x/AB h0", "gc 0", "reinit", "pyr x/AB", "fetch x/AB 0 10", "reinit"}},
+	{ID: "fix-serve-short-file-delete", NT: true, Ops: []string{"up x/a 0", "up y/a 0", "serve x/a d0", "serve y/a h1", "del x/a", "reinit", "up x/a 0", "reinit", "del y/a", "reinit"}},
 	{ID: "fix-shared-chunk-then-delete-other", NT: true, Ops: []string{"up x/AB 0", "pup y/ABA 0", "pyr y/ABA", "fetch y/ABA 0 100", "del x/AB", "read y/ABA"}},
 }
 
@@ -41,7 +46,7 @@ func (prop) Gen(r *core.Rand, tier string) []core.Case {
 	}
 	cs := append([]core.Case(nil), fixed...)
 	for i := 0; i < n; i++ {
-		cfg := nodelite.GenConfig{MinOps: 6, MaxOps: 18, PinUploads: 10, Pins: 8, Deletes: 10, GC: 6, Cache: 24, Partial: true, Gets: 18, Ask: 8, Reinit: 6, Reads: 3, Dirs: true, Budget: 7}
+		cfg := nodelite.GenConfig{MinOps: 6, MaxOps: 18, PinUploads: 10, Pins: 8, Deletes: 10, GC: 6, Cache: 24, Partial: true, Gets: 16, Ask: 8, Serve: 14, Reinit: 8, Reads: 3, Dirs: true, Budget: 7}
 		ops := nodelite.GenHistory(r.Fork(), cfg)
 		cs = append(cs, core.Case{ID: fmt.Sprintf("g%d", i), NT: nontrivial(ops), Ops: ops})
 	}
@@ -59,7 +64,7 @@ func nontrivial(ops []string) bool {
 			}
 		case "pyr":
 			partial = true
-		case "get", "del", "pin", "unpin":
+		case "get", "del", "pin", "unpin", "serve":
 			ctxread = true
 		}
 	}
